@@ -105,8 +105,31 @@ def bn_capacity_lines(rng, w, size, digs):
     return out
 
 
+def toplevel_lines(rng, w, size):
+    """invalid arguments and too-short buffers presented to the conversion functions WITHOUT an enclosing handler (the library's other
+    documented calling convention: check err_get_code() afterwards): a throw then only records the error and execution continues, so
+    every function must return by itself before it touches the caller's buffer"""
+    out = ["mode top"]
+    vals = [0, 5, -5, (1 << 64) - 1, rng.bits(200), -rng.bits(100), (1 << (w * (size - 1))) + 1]
+    for radix in [0, 1, 65, 66, 100, 255, 256, 1000, 2, 10, 16, 64]:
+        for a in vals:
+            need = len(c07.to_str(abs(a), radix)) + (1 if a < 0 else 0) + 1 if 2 <= radix <= 64 else 8
+            for ln in {0, 1, max(need - 1, 0), need, need + 3}:
+                out.append("bn_write_str %d %s %d" % (ln, hx(a), radix))
+        out.append("bn_read_str %d 123" % radix)
+        out.append("bn_read_str %d -zz" % radix)
+    for a in vals:
+        nb = max((abs(a).bit_length() + 7) // 8, 1)
+        for ln in {0, 1, nb - 1, nb, nb + 2}:
+            out.append("bn_write_bin %d %s" % (max(ln, 0), hx(a)))
+    for nbytes in [0, 1, size * w // 8, size * w // 8 + 1, size * w // 8 + 9]:
+        out.append("bn_read_bin " + (("ff" * nbytes) or "."))
+    out.append("mode try")
+    return out
+
+
 def boundary_lines(rng, w, size, digs, count):
-    out = bn_capacity_lines(rng, w, size, digs)
+    out = bn_capacity_lines(rng, w, size, digs) + toplevel_lines(rng, w, size)
     for _ in range(count):
         kind = rng.choice(["win", "slw", "naf", "reg", "jsf"])
         ww = rng.choice([2, 3, 4, 5, 6, 7, 8]) if kind != "jsf" else 2
@@ -155,7 +178,7 @@ def streams(ctx, scale=1):
 AF_WRAP = ("-Wl,--wrap=malloc,--wrap=calloc,--wrap=realloc,--wrap=posix_memalign",)
 # the library calls whose every allocation-failure point is enumerated (harness/ops_af.c); the last group exercises modules where the
 # defect class repaired in the anchored files is still present (known finding C08-AF1)
-AF_FNS = ["bn_mul", "bn_mul_karat", "bn_sqr", "bn_add", "bn_lsh", "bn_div_rem", "bn_mod", "bn_mod_barrt", "bn_mod_monty", "bn_mxp_basic",
+AF_FNS = ["bn_lsh_big", "bn_mul_big", "bn_sqr_big", "bn_add_big", "bn_div_big", "bn_mul", "bn_mul_karat", "bn_sqr", "bn_add", "bn_lsh", "bn_div_rem", "bn_mod", "bn_mod_barrt", "bn_mod_monty", "bn_mxp_basic",
           "bn_mxp_slide", "bn_mxp_monty", "bn_mxp_dig", "bn_gcd_basic", "bn_gcd_lehme", "bn_gcd_binar", "bn_gcd_ext_basic",
           "bn_gcd_ext_lehme", "bn_gcd_ext_binar", "bn_gcd_ext_mid", "bn_lcm", "bn_mod_inv", "bn_srt", "bn_smb_leg", "bn_smb_jac",
           "bn_is_prime_basic", "bn_is_prime_solov", "bn_is_prime_rabin", "bn_rand_mod", "bn_write_str", "bn_read_str", "bn_write_bin",
